@@ -45,7 +45,7 @@ def check_rejects(R, q, x, d, eff, status, o, fmt):
 def run(R):
     if not R.build():
         return
-    R.lean(["C04", "C04x", "C18Run"])
+    R.lean(["C04", "C04x", "C18Run", "C04RunLeftover"])
     import hunted
     hunted.run(R, "C04")
     quick = R.tier == "quick"
